@@ -13,10 +13,46 @@ package main
 
 var optLinSum, optBoundLemmas bool
 
+// Optional feature sets. Each was developed and validated for particular checks; they are opt-in per
+// spec ("term_opts") so that one check's rewrites cannot change another check's solver behaviour.
+var (
+	optAffine     bool // affine.go: division/comparison rewrites of k*x+c (C22, C23)
+	optTermDiv    bool // term_div.go: (x*A) div/rem B and product comparisons (C28-C30)
+	optState1Time bool // natives_state1_time.go: (time.Time).Add/Sub/UnixNano in the sec/nsec domain (C31, C48)
+	optTrust2Time bool // natives_trust2.go: division-free (time.Time).Sub (C34-C36, C38)
+	optPathsTime  bool // natives_paths.go: branch-free (time.Time).After/Before/Equal (C28-C30)
+)
+
+// defaultTermOpts: the feature sets each property's check was built with.
+func defaultTermOpts(property string) []string {
+	switch property {
+	case "C22", "C23":
+		return []string{"affine"}
+	case "C28", "C29", "C30":
+		return []string{"termdiv", "pathstime"}
+	case "C31", "C48":
+		return []string{"state1time"}
+	case "C34", "C35", "C36", "C38":
+		return []string{"trust2time"}
+	}
+	return nil
+}
+
 func setTermOpts(opts []string) {
 	optLinSum, optBoundLemmas, optSumAbs = false, false, false
+	optAffine, optTermDiv, optState1Time, optTrust2Time, optPathsTime = false, false, false, false, false
 	for _, o := range opts {
 		switch o {
+		case "affine":
+			optAffine = true
+		case "termdiv":
+			optTermDiv = true
+		case "state1time":
+			optState1Time = true
+		case "trust2time":
+			optTrust2Time = true
+		case "pathstime":
+			optPathsTime = true
 		case "linsum":
 			optLinSum = true
 		case "boundlemmas":
